@@ -1,0 +1,33 @@
+//go:build verif
+
+package compiler
+
+// Further exports for the verification harness in /verif (build tag "verif" only).
+
+import (
+	"go/token"
+	"go/types"
+
+	"github.com/gopherjs/gopherjs/compiler/internal/analysis"
+	"github.com/gopherjs/gopherjs/compiler/internal/typeparams"
+	"github.com/gopherjs/gopherjs/compiler/sources"
+)
+
+// VerifNewRootScope returns the package-level scope built by the real newRootCtx.
+func VerifNewRootScope(minify bool) *VerifNameScope {
+	srcs := &sources.Sources{
+		ImportPath: "verif",
+		FileSet:    token.NewFileSet(),
+		TypeInfo:   &analysis.Info{InitFuncInfo: &analysis.FuncInfo{}},
+	}
+	return &VerifNameScope{fc: newRootCtx(types.NewContext(), srcs, minify)}
+}
+
+// NestedFunc creates the scope of a function named name through the real
+// nestedFunctionContext and returns it with the name allocated for the function
+// itself (funcRef).
+func (s *VerifNameScope) NestedFunc(name string) (*VerifNameScope, string) {
+	fn := types.NewFunc(token.NoPos, nil, name, types.NewSignatureType(nil, nil, nil, nil, nil, false))
+	c := s.fc.nestedFunctionContext(&analysis.FuncInfo{}, typeparams.Instance{Object: fn})
+	return &VerifNameScope{fc: c}, c.funcRef.Name
+}
